@@ -40,6 +40,18 @@ func MergeyProfile() GenProfile {
 		MaxFieldsPerDoc: 4, MaxToksPerField: 4, Composite: true, DupIDs: true}
 }
 
+var synThesauri = []string{"syn", "th1", "th2"}
+var synLHS = []string{"a", "ab", "b", "café", "x", "zz", "\x00"}
+var synRHS = []string{"a", "b", "x", "y", "quick", "日本", "zz"}
+
+// SynProfile mixes ordinary and synonym documents.
+func SynProfile() GenProfile {
+	p := MergeyProfile()
+	p.Syn = true
+	p.MaxDocs = 8
+	return p
+}
+
 func LeanProfile() GenProfile {
 	return GenProfile{MinDocs: 1100, MaxDocs: 2200, FieldPool: []string{"f", "g"},
 		TermPool: []string{"w0", "w1", "w2", "w3", "w4", "w5"}, MaxFieldsPerDoc: 2, MaxToksPerField: 3, Lean: true}
@@ -194,6 +206,42 @@ func GenBatch(r *rand.Rand, p *GenProfile, idBase int) []Doc {
 			id = B{}
 		}
 		d := Doc{ID: id}
+		if p.Syn && r.Intn(5) < 2 {
+			// a synonym document: _id plus one or two synonym fields (distinct thesauri)
+			d.Fields = append(d.Fields, IDField(id))
+			names := append([]string(nil), synThesauri...)
+			r.Shuffle(len(names), func(i, j int) { names[i], names[j] = names[j], names[i] })
+			for k := 0; k < 1+r.Intn(2); k++ {
+				fi := FieldInst{Name: B(names[k]), Kind: KindSyn}
+				seen := map[string]bool{}
+				for x := 0; x < 1+r.Intn(3); x++ {
+					lhs := synLHS[zipf(r, len(synLHS))]
+					if seen[lhs] {
+						continue
+					}
+					seen[lhs] = true
+					df := Def{T: B(lhs)}
+					ss := map[string]bool{}
+					for y := 0; y < 1+r.Intn(3); y++ {
+						s := synRHS[r.Intn(len(synRHS))]
+						if !ss[s] {
+							ss[s] = true
+							df.Syns = append(df.Syns, B(s))
+						}
+					}
+					fi.Defs = append(fi.Defs, df)
+				}
+				if r.Intn(2) == 0 {
+					d.Fields[0], fi = fi, d.Fields[0] // the _id field after the synonym field
+					d.Fields = append(d.Fields, fi)
+				} else {
+					d.Fields = append(d.Fields, fi)
+				}
+			}
+			d.Canon()
+			docs[i] = d
+			continue
+		}
 		nf := r.Intn(p.MaxFieldsPerDoc + 1)
 		if p.Lean {
 			nf = 1 + r.Intn(p.MaxFieldsPerDoc)
